@@ -14,7 +14,7 @@ for d in sorted(glob.glob(os.path.join(VERIF, "seeded", "*"))):
             nofail = sum(1 for l in viol if "no-failing-input-found" in l)
             m2 = re.search(r"(\d+) violation\(s\)", lines)
             total = int(m2.group(1)) if m2 else len(viol)
-            concrete = any("no-failing-input-found" not in l for l in viol) or total > nofail
+            concrete = any("no-failing-input-found" not in l for l in viol)
             det.append("%s (%s)" % (pid, "concrete input" if concrete else "obligation/correspondence only"))
         else:
             miss.append(pid)
